@@ -162,7 +162,7 @@ def parse_file(path: str) -> List[Contract]:
             cur_loop.desugar = arg.strip()
         elif d == 'proof':
             cur_loop = None
-            mm = re.match(r'(after|before|replace)\s+/(.*)/\s+(\S+)\s+\[([^\]]*)\]\s*$', arg) or \
+            mm = re.match(r'(after|before|replace|tail)\s+/(.*)/\s+(\S+)\s+\[([^\]]*)\]\s*$', arg) or \
                  re.match(r'(start)()\s+(\S+)\s+\[([^\]]*)\]\s*$', arg) or \
                  re.match(r'(loophead|loopbody|loopend|loopinit)\s+(\d+)\s+(\S+)\s+\[([^\]]*)\]\s*$', arg)
             if not mm:
